@@ -148,22 +148,22 @@ def qualifies_page(snap, prefixes, lru):
 def _nested_during_query(life, prefixes, lru):
     """Signature of known finding F12: the listed page lies below one of the
     query's prefixes; whenever it exists as a page it is cut off from that
-    prefix by a webentity prefix Q (P < Q <= page) that did not exist when the
-    query started, i.e. a webentity nested into the walked subtree while the
-    walk was suspended."""
+    prefix by a webentity prefix Q (P < Q <= page) that was *created during the
+    query's lifetime* - absent from some earlier snapshot of that lifetime -
+    i.e. a webentity nested (or nested again, after a removal) into the walked
+    subtree while the walk was suspended."""
     own = [p for p in prefixes if lru.startswith(p)]
     if not own:
         return False
-    first = life[0]
     seen_as_page = False
-    for sn in life:
+    for idx, sn in enumerate(life):
         if lru not in sn["pages"]:
             continue
         seen_as_page = True
         ok = False
         for p in own:
             inner = [q for q in stem_prefixes(lru) if len(q) > len(p) and q in sn["pref"]]
-            if inner and all(q not in first["pref"] for q in inner):
+            if inner and all(any(q not in earlier["pref"] for earlier in life[:idx]) for q in inner):
                 ok = True
         if not ok:
             return False
